@@ -31,9 +31,41 @@ var (
 
 type sibNorm struct {
 	pkgPaths []string // package paths rewritten to "P"
+	// zeroVars: loop-carried local variables that exist on this side only and are declared (with a reason, by the
+	// rule that uses them) to be additive corrections: the comparison is made under the assumption that they are 0,
+	// i.e. their updates are dropped and "x + v" reads as "x". What such a variable must do is checked separately.
+	zeroVars []string
 }
 
+
 func (n sibNorm) str(s string) string {
+	for _, zv := range n.zeroVars {
+		// "(X + phi:v)" reads as X under the assumption v == 0 (structural form produced by sibSym)
+		for _, pat := range []string{" + opaque:phi:" + zv + ")", " + phi:" + zv + ")"} {
+			for {
+				i := strings.Index(s, pat)
+				if i < 0 {
+					break
+				}
+				// find the matching "(" of this binop
+				depth, j := 0, i
+				for j = i - 1; j >= 0; j-- {
+					if s[j] == ')' {
+						depth++
+					} else if s[j] == '(' {
+						if depth == 0 {
+							break
+						}
+						depth--
+					}
+				}
+				if j < 0 {
+					break
+				}
+				s = s[:j] + s[j+1:i] + s[i+len(pat):]
+			}
+		}
+	}
 	for _, pp := range n.pkgPaths {
 		s = strings.ReplaceAll(s, pp, "P")
 	}
@@ -219,6 +251,15 @@ func sibTables(fn *ssa.Function, n sibNorm, maxRuns int) (map[string][]sibRec, s
 							nm := phi.Comment
 							if nm == "" {
 								nm = "?"
+							}
+							skip := false
+							for _, zv := range n.zeroVars {
+								if nm == zv {
+									skip = true
+								}
+							}
+							if skip {
+								continue
 							}
 							ups = append(ups, nm+" := "+n.str(sibSym(o.Val(phi.Edges[j]))))
 						}
